@@ -289,6 +289,11 @@ def P_C09(ctx, log, outcome_kind='ok', outcome_sim=None, maxloop=100, **kw):
     # time steps, after a loop has settled) has been executed exactly once
     if outcome_kind == 'ok':
         out += ['simulation time does not advance normally: ' + x for x in P_C02(ctx, log, outcome='ok') if 'was executed' in x]
+    if outcome_kind == 'deadlock' and kw.get('case') is not None and tracelib.convex(kw['case']) \
+            and any(e['kind'] == 'w' for e in kw['case']['edges']) and any(len(l[2]) > 1 for l in log if l[0] == 'BEGIN'):
+        # a scenario with same-time (weak) connections whose run stalls: neither is the loop stopped with a
+        # SimulationError nor does time advance (non-convex scenarios stall under lazy stepping: known finding F21 of C05)
+        out.append('run() stalled in a scenario with same-time loops: no SimulationError and simulation time does not advance (deadlock)')
     if outcome_kind == 'loop':
         dem = demands_of(ctx, log)
         begun = {(l[1], tuple(l[2])) for l in log if l[0] == 'BEGIN'}
